@@ -253,9 +253,12 @@ def c04(run):
                  need={"compiled": lambda r: r.get("style") == 9, "big": lambda r: r.get("op") == "minimize" and len(r["before"]["final"]) >= 8},
                  timeout=3000)
     # the refinement itself, step by step (hooks in minimizer.rs, spec Hopcroft.tla)
-    run.model("MC_Hopcroft", "MC_Hopcroft3.cfg" if run.tier == "thorough" else "MC_Hopcroft.cfg", workers=workers(run),
-              timeout=3000, note="every behaviour of the Hopcroft state machine on every DFA <= 3 states x 2 (3) letters "
-                                 "ends in the Myhill-Nerode partition and never separates equivalent states")
+    hop_note = ("every behaviour of the Hopcroft state machine (every choice of splitter and of re-activated halves) on "
+                "every DFA of the scope ends in the Myhill-Nerode partition and never separates equivalent states")
+    run.model("MC_Hopcroft", "MC_Hopcroft.cfg", workers=workers(run), timeout=3000, note=hop_note + " (<= 3 states x 2 letters)")
+    if run.tier == "thorough":
+        run.model("MC_Hopcroft", "MC_Hopcroft3.cfg", workers=workers(run), timeout=3000, note=hop_note + " (<= 2 states x 3 letters)")
+        run.model("MC_Hopcroft", "MC_Hopcroft4.cfg", workers=workers(run), timeout=3000, note=hop_note + " (<= 4 states x 1 letter)")
     scen = os.path.join(run.workdir, "dfa_scen.ndjson")
     out3, info3 = _drive(run, "hopcroft", sub="hopcroft", extra=["--scen", scen])
     # only the end result is implied by C04; the round-level obligations bind the code to OUR refinement spec
